@@ -50,6 +50,9 @@ var expectedCustom = map[string]string{
 	"Iden3SparseMerkleTreeProof": "U",
 	"Authentication":             "MU",
 	"GistInfoProof":              "MU",
+	// generic struct decode with the mtp member taken as json.RawMessage and passed
+	// through decodeMTP (checked by checkGuardedStruct)
+	"IssuerData": "U",
 }
 
 type tr struct {
@@ -63,6 +66,7 @@ type tr struct {
 	emitted map[string]bool
 	order   []string
 	descs   map[string][]field
+	guarded []string
 }
 
 type field struct {
@@ -221,7 +225,21 @@ func Translate(outDir string) error {
 		}
 		out.WriteString(renderDesc("w_"+s, fs))
 		out.WriteString(fmt.Sprintf("Definition w_%s_type_const : string := %s.\n\n", s, coqStr(cmp)))
+		// a raw mtp member must go through decodeMTP
+		for _, f := range fs {
+			if f.key == "mtp" && f.kind == "KRaw" && !t.callsDecodeMTP(s) {
+				return fmt.Errorf("%s.UnmarshalJSON takes mtp as json.RawMessage but does not call decodeMTP", s)
+			}
+		}
 	}
+	if t.funcs["decodeMTP"] == nil {
+		return fmt.Errorf("decodeMTP not found")
+	}
+	if !t.callsDecodeMTP("GistInfoProof") {
+		return fmt.Errorf("GistInfoProof.UnmarshalJSON does not call decodeMTP: not the modelled codec")
+	}
+	out.WriteString("(* structs decoded by reflection except for the listed members, which go through decodeMTP *)\n")
+	out.WriteString("Definition guarded_structs : list (string * list string) :=\n  [" + strings.Join(t.guarded, ";\n   ") + "].\n\n")
 
 	// 4. Merklize
 	calls, deleted, err := t.merklize()
@@ -556,6 +574,16 @@ func (t *tr) namedKind(name, file string, stack []string, ptr bool) (string, err
 			if name == "GistInfoProof" && ptr {
 				return "(KCustom CuPtrGistInfoProof)", nil
 			}
+			if name == "IssuerData" && !ptr {
+				// decoded field by field like a plain struct; only "mtp" goes through decodeMTP
+				if err := t.checkGuardedStruct(name); err != nil {
+					return "", err
+				}
+				if err := t.emitStruct(name, stack); err != nil {
+					return "", err
+				}
+				return "(KStruct d_" + name + ")", nil
+			}
 			return "", fmt.Errorf("struct %s with JSON methods in this position is not modelled", name)
 		}
 		if inStack(stack, name) {
@@ -659,6 +687,97 @@ func (t *tr) checkAuthentication() error {
 		return fmt.Errorf("Authentication: second field must be `did string`")
 	}
 	return nil
+}
+
+// checkGuardedStruct: (*S).UnmarshalJSON must be `obj := struct{ *alias; MTP json.RawMessage
+// `json:"mtp,omitempty"` }{alias: (*alias)(id)}; json.Unmarshal(in, &obj); decodeMTP(obj.MTP)`:
+// every member is decoded by reflection into the struct itself, except the members
+// listed here, which are taken raw and decoded by decodeMTP.
+func (t *tr) checkGuardedStruct(name string) error {
+	fd := t.methods[name]["UnmarshalJSON"]
+	if fd == nil {
+		return fmt.Errorf("%s.UnmarshalJSON not found", name)
+	}
+	file := t.fileOf[fd]
+	var st *ast.StructType
+	alias := ""
+	calls := []string{}
+	ast.Inspect(fd.Body, func(n ast.Node) bool {
+		switch x := n.(type) {
+		case *ast.TypeSpec:
+			if id, ok := x.Type.(*ast.Ident); ok && id.Name == name {
+				alias = x.Name.Name
+			}
+		case *ast.CompositeLit:
+			if s, ok := x.Type.(*ast.StructType); ok && st == nil {
+				st = s
+			}
+		case *ast.CallExpr:
+			if _, conv := x.Fun.(*ast.ParenExpr); !conv { // (*alias)(id) is a conversion
+				calls = append(calls, callName(x))
+			}
+		}
+		return true
+	})
+	if st == nil || alias == "" {
+		return fmt.Errorf("%s.UnmarshalJSON: expected the alias-embedding form", name)
+	}
+	var raw []string
+	embedded := false
+	for _, f := range st.Fields.List {
+		if len(f.Names) == 0 {
+			se, ok := f.Type.(*ast.StarExpr)
+			if !ok {
+				return fmt.Errorf("%s.UnmarshalJSON: embedded field must be a pointer to the alias", name)
+			}
+			if id, ok := se.X.(*ast.Ident); !ok || id.Name != alias || f.Tag != nil {
+				return fmt.Errorf("%s.UnmarshalJSON: embedded field must be *%s without tag", name, alias)
+			}
+			embedded = true
+			continue
+		}
+		sel, ok := f.Type.(*ast.SelectorExpr)
+		p, ok2 := sel.X.(*ast.Ident)
+		if !ok || !ok2 || sel.Sel.Name != "RawMessage" || t.imports[file][p.Name] != "encoding/json" || f.Tag == nil {
+			return fmt.Errorf("%s.UnmarshalJSON: shadowing field of unknown type", name)
+		}
+		rawTag, _ := strconv.Unquote(f.Tag.Value)
+		jt, has, err := parseTag(rawTag)
+		if err != nil || !has {
+			return fmt.Errorf("%s.UnmarshalJSON: bad tag on shadowing field", name)
+		}
+		raw = append(raw, strings.Split(jt, ",")[0])
+	}
+	if !embedded || len(raw) != 1 || raw[0] != "mtp" {
+		return fmt.Errorf("%s.UnmarshalJSON: raw members %v, the model knows [mtp]", name, raw)
+	}
+	want := []string{"json.Unmarshal", "decodeMTP"}
+	if strings.Join(calls, ",") != strings.Join(want, ",") {
+		return fmt.Errorf("%s.UnmarshalJSON: calls %v, the model knows %v", name, calls, want)
+	}
+	entry := fmt.Sprintf("(%s, %s)", coqStr(name), coqStrList(raw))
+	for _, g := range t.guarded {
+		if g == entry {
+			return nil
+		}
+	}
+	t.guarded = append(t.guarded, entry)
+	return nil
+}
+
+// callsDecodeMTP: does (*S).UnmarshalJSON pass obj.MTP to decodeMTP?
+func (t *tr) callsDecodeMTP(name string) bool {
+	fd := t.methods[name]["UnmarshalJSON"]
+	found := false
+	if fd != nil {
+		ast.Inspect(fd.Body, func(n ast.Node) bool {
+			if c, ok := n.(*ast.CallExpr); ok && callName(c) == "decodeMTP" {
+				found = true
+			}
+			return true
+		})
+	}
+	return found
 }
 
 // wireStruct finds `var obj struct{...}` in (*S).UnmarshalJSON and the constant the
